@@ -171,38 +171,70 @@ def run(tier):
         rd = reads_of(bfh, is_bytes)
         res.require(rd == [('range', 1, (1, (('*arg1.layout.fhdr_len', 1),)))], 'C02:%s::fhdr' % ty, 'FHDR view is not bytes[1 .. 1 + fhdr_len]: %s' % rd, bfh.body.path, 'SPEC-LAYOUT(FHDR)', instance='%s::fhdr = bytes[1..1+fhdr_len]' % ty)
         bfm = body_of(c, ty, 'mic')
-        rd = reads_of(bfm, is_bytes)
-        res.require(rd == [('range', (-4, (('len(&**arg1.bytes)', 1),)), None)], 'C02:%s::mic' % ty, 'MIC view is not the last four bytes: %s' % rd, bfm.body.path, 'SPEC-LAYOUT(MIC)', instance='%s::mic = bytes[len-4..]' % ty)
-        # f_port: bytes[off] for the layout's port offset
-        cl = [p for p in prog.by_short if ('::' + ty) in p and '::f_port::{closure#0}' in p and 'promoted' not in p]
-        okp = len(cl) == 1
-        if okp:
-            bfc = c.bf(cl[0])
-            rdp = []
-            for b in bfc.body.blocks:
-                for s_ in b.stmts:
-                    if s_.k == 'assign' and s_.rv.k == 'use' and s_.rv.ops[0].place is not None:
-                        t = peel(term_of_operand(bfc, s_.rv.ops[0]))
-                        if t[0] == 'index':
-                            rdp.append(t)
-            okp = len(rdp) == 1 and peel(rdp[0][2]) == ('param', 2) and peel(rdp[0][1])[0] == 'field' and peel(peel(rdp[0][1])[1]) == ('param', 1)
+        rd = layout.reads_of_deep(c.pf, bfm, is_bytes)
+        res.require(rd == [('range', (-4, (('LEN', 1),)), None)], 'C02:%s::mic' % ty, 'MIC view is not the last four bytes: %s' % rd, bfm.body.path, 'SPEC-LAYOUT(MIC)', instance='%s::mic = bytes[len-4..]' % ty)
+        # f_port: Some(bytes[off]) exactly when the layout has a port offset `off`, else None - as opt.map(|off| ..), match or if-let
         bfp = body_of(c, ty, 'f_port')
-        mp = [(bb_, t) for bb_, t in bfp.calls() if callee_name(t).endswith('Option::map')]
-        okp = okp and len(mp) == 1 and field_path(term_of_operand(bfp, mp[0][1].args[0]))[1][-2:] == ['layout', 'f_port_offset'] and \
-            term_contains(term_of_operand(bfp, mp[0][1].args[1]), lambda y: y == 'bytes')     # the closure captures self.bytes
+        kinds_p = set()
+        okp = True
+        for v, cs in rules.value_cases(bfp, rules.term_of_local(bfp, 0)):
+            v = peel(v)
+            if v[0] == 'agg' and v[1].endswith('Option::Some'):
+                x = peel(v[2][0][1])
+                okx = x[0] == 'index' and is_bytes(peel(x[1])) and peel(peel(x[1])[1]) == ('param', 1)
+                o = peel(x[2]) if okx else None
+                okx = okx and o[0] == 'field' and o[2] == '0' and o[1][0] == 'as' and o[1][2] == 'Some' and field_path(o[1][1])[1][-2:] == ['layout', 'f_port_offset']
+                okp = okp and okx
+                kinds_p.add('some')
+            elif v[0] == 'agg' and v[1].endswith('Option::None'):
+                kn = [rules.option_known(x) for x in cs]
+                okp = okp and any(k_ is not None and not k_[1] and field_path(k_[0])[1][-2:] == ['layout', 'f_port_offset'] for k_ in kn)
+                kinds_p.add('none')
+            else:
+                okp = False
+        okp = okp and kinds_p == {'some', 'none'}
         res.require(okp, 'C02:%s::f_port' % ty, 'FPort is not bytes[layout.f_port_offset]', bfp.body.path, 'SPEC-LAYOUT(FPort)', instance='%s::f_port = bytes[f_port_offset] when present' % ty)
     bfr = body_of(c, 'DecryptedDataPayload', 'frm_payload')
     rd = reads_of(bfr, is_bytes)
-    okq = rd == [('range', (0, (('*arg1.layout.frm_start', 1),)), (0, (('*arg1.layout.frm_end', 1),)))]
+    # the view is bytes[frm_start..frm_end]; the only other byte that may be looked at is the port byte (to classify the payload)
+    okq = [x for x in rd if x[0] == 'range'] == [('range', (0, (('*arg1.layout.frm_start', 1),)), (0, (('*arg1.layout.frm_end', 1),)))] and \
+        all(x == ('byte', (0, (('(*arg1.layout.f_port_offset as Some).0', 1),))) for x in rd if x[0] != 'range')
     kinds = {}
+    raw = {}
     for b in bfr.body.blocks:
         if b.cleanup or b.idx not in bfr.cfg.reach:
             continue
         for s_ in b.stmts:
             if s_.k == 'assign' and s_.rv.k == 'agg' and (s_.rv.d.get('adt') or '').endswith('FrmPayload'):
                 cs = path_conditions(bfr, b.idx)
-                kinds[s_.rv.d.get('variant')] = [(term_str(x[0])[:60], x[1]) for x in cs]
-    okk = set(kinds) == {'Data', 'MacCommands', 'None'} and any(v == (0,) and 'f_port' in t_ for t_, v in kinds['MacCommands']) and any(v == (0,) and 'discr' in t_ for t_, v in kinds['None'])
+                kinds[s_.rv.d.get('variant')] = [(term_str(x[0])[:80], x[1]) for x in cs]
+                raw[s_.rv.d.get('variant')] = cs
+
+    def is_port_option(o):
+        o = peel(o)
+        return (is_call(o, '::f_port') and peel(o[2][0]) == ('param', 1)) or field_path(o)[1][-2:] == ['layout', 'f_port_offset']
+
+    def is_port_byte(v):
+        v = peel(v)
+        if v[0] == 'field' and v[2] == '0' and v[1][0] == 'as' and v[1][2] == 'Some' and is_call(peel(v[1][1]), '::f_port'):
+            return True
+        return v[0] == 'index' and is_bytes(peel(v[1])) and (lambda o: o[0] == 'field' and o[2] == '0' and o[1][0] == 'as' and o[1][2] == 'Some' and is_port_option(o[1][1]))(peel(v[2]))
+
+    def port_is_zero(x):
+        """True / False if the condition settles `port byte == 0`, None if it says nothing about it"""
+        t_, v = x[0], x[1]
+        if isinstance(t_, tuple) and len(t_) == 3 and t_[0] in ('Eq', 'Ne') and ((is_port_byte(t_[1]) and peel(t_[2]) == ('const', 0)) or (is_port_byte(t_[2]) and peel(t_[1]) == ('const', 0))):
+            truth = True if cond_true(x) else False if cond_false(x) else None
+            return None if truth is None else (truth if t_[0] == 'Eq' else not truth)
+        if is_port_byte(t_):
+            return True if v == (0,) else False if (isinstance(v, tuple) and v[:1] == ('not',) and 0 in v[1]) or (isinstance(v, tuple) and len(v) == 1 and isinstance(v[0], int) and v[0] != 0) else None
+        return None
+
+    def no_port(x):
+        k_ = rules.option_known(x)
+        return k_ is not None and not k_[1] and is_port_option(k_[0])
+    okk = set(kinds) == {'Data', 'MacCommands', 'None'} and any(no_port(x) for x in raw['None']) and any(port_is_zero(x) is True for x in raw['MacCommands']) and \
+        any(port_is_zero(x) is False for x in raw['Data']) and not any(no_port(x) for x in raw['MacCommands'] + raw['Data'])
     res.require(okq and okk, 'C02:frm_payload', 'FRMPayload view is not bytes[frm_start..frm_end] classified None / port 0 = MAC commands / other = data: %s' % kinds, bfr.body.path,
                 'SPEC-LAYOUT(FRMPayload) + TABLE(port -> kind)', instance='frm_payload = bytes[frm_start..frm_end]; no port: None, port 0: MAC commands, else data')
     # ------------------------------------------------------------------ (b) validate_mic
@@ -211,10 +243,18 @@ def run(tier):
     okv = len(cm) == 1
     if okv:
         a = [peel(term_of_operand(bv, x)) for x in cm[0][1].args]
-        ic = index_call(a[0])
-        okv = ic is not None and ic[1][2] == 'to' and off(ic[1][1]) == (-4, (('len(&**arg1.bytes)', 1),)) and a[1] == ('param', 2) and a[2] == ('param', 3)
+        rs = layout.resolve_slice(a[0], is_bytes)
+        okv = rs is not None and rs[0] == ('const', 0) and rs[1] is not None and layout.canon_len(off(rs[1])) == (-4, (('LEN', 1),)) and a[1] == ('param', 2) and a[2] == ('param', 3)
         eq = [(bb_, t) for bb_, t in bv.calls() if callee_name(t).endswith('PartialEq>::eq')]
-        cmp_eq = len(eq) == 1 and any(has_call(term_of_operand(bv, x), '::mic') for x in eq[0][1].args) and any(has_call(term_of_operand(bv, x), 'calculate_data_mic') for x in eq[0][1].args)
+
+        def is_received_mic(x):
+            # the MIC carried by the frame: self.mic() / extract_mic(bytes), or MIC(last four bytes) spelled out
+            if has_call(x, '::mic') or has_call(x, 'extract_mic'):
+                return True
+            tl = rules.find_in_term(x, lambda y: (lambda r_: r_ is not None and r_[1] is None and layout.canon_len(off(r_[0])) == (-4, (('LEN', 1),)))(
+                layout.resolve_slice(y, is_bytes) if isinstance(y, tuple) and y and y[0] in ('call', 'field') else None))
+            return tl is not None and not has_call(x, 'calculate_data_mic')
+        cmp_eq = len(eq) == 1 and any(is_received_mic(term_of_operand(bv, x)) for x in eq[0][1].args) and any(has_call(term_of_operand(bv, x), 'calculate_data_mic') for x in eq[0][1].args)
         okv = okv and (cmp_eq or _constant_time_eq(c, bv))
     res.require(okv, 'C02:validate_mic', 'validate_mic is not `mic() == calculate_data_mic(bytes[..len-4], crypto, fcnt)`', bv.body.path, 'PROVENANCE(MIC check)',
                 instance='validate_mic: last 4 bytes == calculate_data_mic(bytes[..len-4], given key, given 32-bit counter)')
